@@ -414,6 +414,7 @@ RULES = {
 
 
 DOTALL = ("inner_macro_def", "mismatch_debug", "offered_let")
+EXTRA_DOTALL = set()      # rules declared with the "dotall" marker in a fn_targets json
 
 
 def make_rewriter(rel, plan):
@@ -450,7 +451,7 @@ def make_rewriter(rel, plan):
                 def sub(m):
                     out = m.expand(repl)
                     return out + "\n" * (m.group(0).count("\n") - out.count("\n"))
-                seg, n = re.subn(rx, sub, seg, flags=re.S if rn in DOTALL else 0)
+                seg, n = re.subn(rx, sub, seg, flags=re.S if (rn in DOTALL or rn in EXTRA_DOTALL) else 0)
                 if (want is None and n < 1) or (want is not None and n != want):
                     bad = "normalisation rule %r applies %d times in %s (declared: %s)" % (rn, n, name, want or "at least once"); break
                 log.append(("%s in %s: %s" % (rn, name, RULES[rn][2]), n))
@@ -475,6 +476,18 @@ def load_targets():
     def add(d, origin):
         d = dict(d)
         d["fns"] = [tuple(x) for x in d.get("fns", [])]
+        # (b1819) normalisation rules declared in a fn_targets json: "rules": {name: [regex, replacement, meaning, count?,
+        # "dotall"?]} are added to RULES (a name must be new), "normalise": {"Impl::fn": [rule names]} is the plan of the area
+        for rn, rv in (d.get("rules") or {}).items():
+            if rn in RULES and tuple(RULES[rn][:3]) != tuple(rv[:3]):
+                raise ExtractError("x_fn: %s: normalisation rule %s is already defined" % (origin, rn))
+            rv = list(rv)
+            if rv and rv[-1] == "dotall":
+                rv.pop(); EXTRA_DOTALL.add(rn)
+            RULES[rn] = tuple(rv)
+        if isinstance(d.get("normalise"), dict) and d["normalise"] and all(isinstance(k, str) for k in d["normalise"]):
+            d["normalise"] = {((k.split("::")[0] or None) if "::" in k else None, k.split("::")[-1]): v
+                              for k, v in d["normalise"].items()}
         if d["area"] not in by:
             d.setdefault("consts", []); d.setdefault("structs", []); d.setdefault("externals", {}); d.setdefault("foreign_structs", {})
             d["consts"], d["structs"] = list(d["consts"]), list(d["structs"])
